@@ -28,7 +28,19 @@ pub enum Op {
     CloneFrom(u8),
     /// an attribute type of the application's own (0x9A00 + len, value = len bytes), handed to
     /// add_attribute through its own `AttributeWrite` implementation
-    Custom(u8),
+    Custom(u16),
+    /// keep a copy: `sibling = builder.clone()`; the sibling stays alive beside the builder (a base
+    /// kept because sealing cannot be undone).  Every later step looks at both.
+    Fork,
+    /// carry on with the sibling (the builder becomes the sibling); nothing happens without a sibling
+    Swap,
+    /// an application attribute (type 0x9C00) whose value the application can still change after it
+    /// was handed to add_attribute (`Attribute` is `Sync`: a value behind an atomic or a lock, filled
+    /// in just before sending): added with a value of this many bytes
+    AppMut(u16),
+    /// the application changes the value of the `AppMut` attribute to this many bytes; every builder
+    /// that still borrows it serialises the new value from now on
+    Mutate(u16),
     /// Somewhere else in the process (on a thread of its own) an application attribute panics while the
     /// library serialises it - inside add_fingerprint (0), add_message_integrity (1), build (2),
     /// write_into (3), into_owned (4) - and the panic is caught.  Nothing of this builder is involved;
@@ -91,14 +103,56 @@ pub fn poison(kind: u8) {
 /// The application-defined attribute of `Op::Custom`.
 #[derive(Debug)]
 pub struct AppAttr {
-    pub len: u8,
+    pub len: u16,
 }
 impl AppAttr {
-    pub fn typ(len: u8) -> u16 {
-        0x9A00 + len as u16
+    pub fn typ(len: u16) -> u16 {
+        if len < 0x100 {
+            0x9A00 + len
+        } else {
+            0xA000 + (len & 0x0FFF)
+        }
     }
-    pub fn value(len: u8) -> Vec<u8> {
-        (0..len).map(|i| 0xA0 ^ i.wrapping_mul(7)).collect()
+    pub fn value(len: u16) -> Vec<u8> {
+        (0..len).map(|i| 0xA0 ^ (i as u8).wrapping_mul(7) ^ (i >> 8) as u8).collect()
+    }
+}
+
+/// The application attribute of `Op::AppMut` / `Op::Mutate`: its value length lives in an atomic.
+#[derive(Debug, Default)]
+pub struct MutAttr {
+    pub len: std::sync::atomic::AtomicU16,
+}
+impl MutAttr {
+    pub const TYPE: u16 = 0x9C00;
+    pub fn value(len: u16) -> Vec<u8> {
+        (0..len).map(|i| 0x5C ^ (i as u8).wrapping_mul(11)).collect()
+    }
+    fn now(&self) -> u16 {
+        self.len.load(std::sync::atomic::Ordering::SeqCst)
+    }
+}
+impl Attribute for MutAttr {
+    fn get_type(&self) -> AttributeType {
+        AttributeType::new(Self::TYPE)
+    }
+    fn length(&self) -> u16 {
+        self.now()
+    }
+}
+impl AttributeWrite for MutAttr {
+    fn to_raw(&self) -> RawAttribute {
+        RawAttribute::new(self.get_type(), &Self::value(self.now())).into_owned()
+    }
+    fn write_into_unchecked(&self, dest: &mut [u8]) {
+        let v = Self::value(self.now());
+        let len = 4 + (v.len() + 3) / 4 * 4;
+        let offset = self.write_header_unchecked(dest);
+        dest[offset..offset + v.len()].copy_from_slice(&v);
+        let offset = offset + v.len();
+        if len > offset {
+            dest[offset..len].fill(0);
+        }
     }
 }
 impl Attribute for AppAttr {
@@ -138,6 +192,10 @@ impl Op {
             Op::Measure => "MEASURE".into(),
             Op::CloneFrom(k) => format!("CLONEFROM:{k}"),
             Op::Custom(l) => format!("APP:{l}"),
+            Op::Fork => "FORK".into(),
+            Op::Swap => "SWAP".into(),
+            Op::AppMut(l) => format!("APPMUT:{l}"),
+            Op::Mutate(l) => format!("MUTATE:{l}"),
             Op::Poison(k) => format!("POISON:{k}"),
         }
     }
@@ -154,6 +212,10 @@ impl Op {
             "MEASURE" => Op::Measure,
             "CLONEFROM" => Op::CloneFrom(p[1].parse().unwrap()),
             "APP" => Op::Custom(p[1].parse().unwrap()),
+            "FORK" => Op::Fork,
+            "SWAP" => Op::Swap,
+            "APPMUT" => Op::AppMut(p[1].parse().unwrap()),
+            "MUTATE" => Op::Mutate(p[1].parse().unwrap()),
             "POISON" => Op::Poison(p[1].parse().unwrap()),
             _ => panic!("harness: bad op text {s}"),
         }
@@ -163,6 +225,7 @@ impl Op {
             Op::Typed(k, _) => Some(k.code()),
             Op::Raw(t, _) => Some(*t),
             Op::Custom(l) => Some(AppAttr::typ(*l)),
+            Op::AppMut(_) => Some(MutAttr::TYPE),
             Op::Sha1(_) => Some(wire::MI),
             Op::Sha256(_) => Some(wire::MI256),
             Op::Fp => Some(wire::FP),
@@ -239,6 +302,11 @@ impl From<StunWriteError> for WErr {
 /// is called.  Typed attributes are constructed up front (the builder borrows them); a typed
 /// attribute whose constructor refuses makes the whole program unrunnable (`Err`).
 pub fn execute(prog: &Prog, mut observe: impl FnMut(usize, &Result<(), WErr>, &MessageBuilder)) -> Result<(), String> {
+    execute_tree(prog, |i, r, b, _| observe(i, r, b))
+}
+
+/// `execute` for programs with `Fork` / `Swap`: the callback also sees the sibling builder.
+pub fn execute_tree(prog: &Prog, mut observe: impl FnMut(usize, &Result<(), WErr>, &MessageBuilder, Option<&MessageBuilder>)) -> Result<(), String> {
     let mut arena: Vec<Option<Typed>> = Vec::with_capacity(prog.ops.len());
     for op in &prog.ops {
         match op {
@@ -254,12 +322,33 @@ pub fn execute(prog: &Prog, mut observe: impl FnMut(usize, &Result<(), WErr>, &M
         }
     }
     let creds: Vec<MessageIntegrityCredentials> = creds_alphabet().iter().map(real::creds).collect();
-    let apps: Vec<AppAttr> = (0..=12u8).map(|len| AppAttr { len }).collect();
+    let apps: Vec<Option<AppAttr>> = prog.ops.iter().map(|op| if let Op::Custom(len) = op { Some(AppAttr { len: *len }) } else { None }).collect();
+    let mutattr = MutAttr::default();
     let mut b = real::builder(prog.class, prog.method, prog.tid);
+    let mut sib: Option<MessageBuilder> = None;
     for (i, op) in prog.ops.iter().enumerate() {
         let r: Result<(), WErr> = match op {
             Op::Typed(..) => b.add_attribute(arena[i].as_ref().unwrap().as_write()).map_err(WErr::from),
-            Op::Custom(l) => b.add_attribute(&apps[(*l).min(12) as usize]).map_err(WErr::from),
+            Op::Custom(_) => b.add_attribute(apps[i].as_ref().unwrap()).map_err(WErr::from),
+            Op::Fork => {
+                sib = Some(b.clone());
+                Ok(())
+            }
+            Op::Swap => {
+                if let Some(s) = sib.as_mut() {
+                    std::mem::swap(&mut b, s);
+                }
+                Ok(())
+            }
+            Op::AppMut(l) => {
+                // (the value changes whether or not the builder then takes the attribute)
+                mutattr.len.store(*l, std::sync::atomic::Ordering::SeqCst);
+                b.add_attribute(&mutattr).map_err(WErr::from)
+            }
+            Op::Mutate(l) => {
+                mutattr.len.store(*l, std::sync::atomic::Ordering::SeqCst);
+                Ok(())
+            }
             Op::Poison(k) => {
                 poison(*k);
                 Ok(())
@@ -302,7 +391,7 @@ pub fn execute(prog: &Prog, mut observe: impl FnMut(usize, &Result<(), WErr>, &M
                 Ok(())
             }
         };
-        observe(i, &r, &b);
+        observe(i, &r, &b, sib.as_ref());
     }
     Ok(())
 }
@@ -318,11 +407,54 @@ pub struct RefBuilder {
     pub attrs: Vec<(u16, Vec<u8>)>,
     /// for sealing attributes: (position in attrs, creds index)
     pub seals: Vec<(usize, u8)>,
+    /// position of the `AppMut` attribute while the builder still borrows it (until into_owned)
+    pub mut_live: Option<usize>,
+}
+
+/// Reference for programs with `Fork` / `Swap` / `Mutate`: the builder and its sibling.
+#[derive(Clone, Debug, Default, PartialEq, Eq, Hash)]
+pub struct RefTree {
+    pub cur: RefBuilder,
+    pub sib: Option<RefBuilder>,
+}
+
+impl RefTree {
+    pub fn new(class: u8, method: u16, tid: u128) -> Self {
+        RefTree { cur: RefBuilder::new(class, method, tid), sib: None }
+    }
+    pub fn apply(&mut self, op: &Op) -> bool {
+        match op {
+            Op::Fork => {
+                self.sib = Some(self.cur.clone());
+                true
+            }
+            Op::Swap => {
+                if let Some(s) = self.sib.as_mut() {
+                    std::mem::swap(&mut self.cur, s);
+                }
+                true
+            }
+            Op::Mutate(l) | Op::AppMut(l) => {
+                self.cur.mutate(*l);
+                if let Some(s) = self.sib.as_mut() {
+                    s.mutate(*l);
+                }
+                self.cur.apply(op)
+            }
+            _ => self.cur.apply(op),
+        }
+    }
 }
 
 impl RefBuilder {
     pub fn new(class: u8, method: u16, tid: u128) -> Self {
-        RefBuilder { class, method, tid: tid & ((1u128 << 96) - 1), attrs: vec![], seals: vec![] }
+        RefBuilder { class, method, tid: tid & ((1u128 << 96) - 1), attrs: vec![], seals: vec![], mut_live: None }
+    }
+    /// the application changed the value of the `AppMut` attribute
+    pub fn mutate(&mut self, len: u16) {
+        if let Some(i) = self.mut_live {
+            self.attrs[i].1 = MutAttr::value(len);
+        }
     }
     pub fn has(&self, t: u16) -> bool {
         self.attrs.iter().any(|(x, _)| *x == t)
@@ -350,11 +482,27 @@ impl RefBuilder {
                 true
             }
             Op::Custom(l) => {
-                let l = (*l).min(12);
-                if self.has(AppAttr::typ(l)) || self.sealed() {
+                if self.has(AppAttr::typ(*l)) || self.sealed() {
                     return false;
                 }
-                self.attrs.push((AppAttr::typ(l), AppAttr::value(l)));
+                self.attrs.push((AppAttr::typ(*l), AppAttr::value(*l)));
+                true
+            }
+            Op::AppMut(l) => {
+                self.mutate(*l);
+                if self.has(MutAttr::TYPE) || self.sealed() {
+                    return false;
+                }
+                self.mut_live = Some(self.attrs.len());
+                self.attrs.push((MutAttr::TYPE, MutAttr::value(*l)));
+                true
+            }
+            Op::Mutate(l) => {
+                self.mutate(*l);
+                true
+            }
+            Op::IntoOwned => {
+                self.mut_live = None;
                 true
             }
             Op::Sha1(c) => {
@@ -393,7 +541,7 @@ impl RefBuilder {
                 self.attrs.push((wire::FP, buf[l - 4..].to_vec()));
                 true
             }
-            Op::IntoOwned | Op::Clone | Op::Measure | Op::CloneFrom(_) | Op::Poison(_) => true,
+            Op::Clone | Op::Measure | Op::CloneFrom(_) | Op::Poison(_) | Op::Fork | Op::Swap => true,
         }
     }
     pub fn bytes(&self) -> Vec<u8> {
